@@ -5,7 +5,7 @@ from ..kinds import BOOL, SCALAR, UNKNOWN, Kinds
 from ..model import AnalysisError
 from ..norm import Normalizer, show_term
 from ..vgraph import FALSE, NONE, TRUE, Closure, Ctx, show, walk
-from .util import fields, live, one
+from .util import POS, elementwise, fields, live, one
 
 EXPLANATION = (
     "Per space kind (Box, Discrete, MultiBinary, MultiDiscrete, Dict, Tuple), on every static path of the method: C14.1 contains "
@@ -106,7 +106,12 @@ def check(s):
             if ok:
                 it = comps[0][3][0][0]
                 src = {n_ for n_ in walk(it) if n_ == ("attr", self_, "spaces")}
-                s.ob("C14.2", con, bool(src), "the components iterated are self.spaces", loc, key="component-source", detail=show(it, maxlen=120))
+                # a Dict may equally iterate the candidate's keys: the key-set guard (C14.3) makes the two key sets equal on the accepting path
+                s.ob("C14.2", con, bool(src) or (cls == "Dict" and x in set(walk(it))), "the components iterated are self.spaces (or, for a Dict, the equal key set of x)", loc,
+                     key="component-source", detail=show(it, maxlen=120))
+                s.ob("C14.2", con, pairing_ok(cls, comps[0], "contains", x), "each component space tests the value stored under its own key (Dict) / at its own position (Tuple)",
+                     loc, key="component-pairing", detail=pairing_show(cls, comps[0]),
+                     necessary_for="a Dict value whose keys come in another order than the space's is judged key by key (Gymnasium sorts keys); components are never cross-paired")
         # C14.3 ------------------------------------------------------
         for gname, gexpr in GUARDS[cls]:
             want = nz.canon(s.ref(b, gexpr, bind))
@@ -219,6 +224,11 @@ def check(s):
             src = ("attr", self_, "spaces") in set(walk(it))
             s.ob("C14.8", f"{cls}.{nm}", src and not bad, "components are iterated from self.spaces in stored order (no sorting / reversal)", loc, key=f"order-{nm}",
                  detail=show(it, maxlen=120), necessary_for="flatten_sample returns flat_size numbers, component by component in one order")
+        s.ob("C14.8", f"{cls}.flatten_sample", pairing_ok(cls, cf[0], "flatten_sample", ("param", "sample"), own_order=True),
+             "each component space flattens the sample component stored under its own key / position, in self.spaces order", loc, key="flatten-pairing",
+             detail=pairing_show(cls, cf[0]), necessary_for="the flat vector determines the sample: component i of the vector is component i of the space")
+        s.ob("C14.8", f"{cls}.flat_size", pairing_ok(cls, cs[0], "flat_size", None, attr=True), "flat_size adds every component's flat_size once", s.loc(cls, "flat_size"),
+             key="flat-size-pairing", detail=pairing_show(cls, cs[0]))
         okc = isinstance(pf.ret, tuple) and pf.ret[0] == "call" and pf.ret[1] == ("global", "jax.numpy.concatenate")
         s.ob("C14.8", f"{cls}.flatten_sample", okc, "the flat vector is the concatenation of the component vectors", loc, key="concatenate", detail=show(pf.ret, maxlen=160))
         oks = isinstance(ps.ret, tuple) and ps.ret[0] == "call" and ps.ret[1] == ("global", "sum")
@@ -234,7 +244,7 @@ def check(s):
              "flatten_sample == ravel of the sample as float (one number per element)", s.loc(cls, "flatten_sample"), key="flatten-ravel")
     # ---------------------------------------------------------------- C14.9 conversions
     check_conversions(s)
-    for r_, n in (("C14.1", 18), ("C14.2", 7), ("C14.3", 20), ("C14.4", 20), ("C14.5", 12), ("C14.6", 8), ("C14.7", 1), ("C14.8", 16), ("C14.9", 24)):
+    for r_, n in (("C14.1", 18), ("C14.2", 10), ("C14.3", 20), ("C14.4", 20), ("C14.5", 12), ("C14.6", 12), ("C14.7", 3), ("C14.8", 22), ("C14.9", 24)):
         s.floor(r_, n)
 
 
@@ -247,6 +257,48 @@ s2 = jnp.where(~ba & ~bb, jr.normal(K, self.shape), s1)
 s3 = jnp.where(~bb & ba, self.high - jr.exponential(K, self.shape), s2)
 s4 = jnp.where(bb & ~ba, self.low + jr.exponential(K, self.shape), s3)
 """
+
+
+def pairing_terms(cls, comp):
+    self_ = ("param", "self")
+    sp = ("attr", self_, "spaces")
+    ew = elementwise(comp, dicts=(sp, ("param", "x"), ("param", "sample")) if cls == "Dict" else ())
+    return sp, ew
+
+
+def pairing_show(cls, comp):
+    sp, ew = pairing_terms(cls, comp)
+    return "not a single unfiltered generator" if ew is None else f"element: {show(ew[0], maxlen=300)}; iterates {[show(d_, maxlen=60) for d_ in ew[1]]}"
+
+
+def pairing_ok(cls, comp, method, value, kw=None, keyed=False, attr=False, own_order=False, drop_kw=False):
+    """element == spaces[K].<method>(value[K]) with one and the same K (a key of one of the two dicts / the position), iterating self.spaces."""
+    sp, ew = pairing_terms(cls, comp)
+    if ew is None:
+        return False
+    elt, domains = ew
+    if sp not in domains and not (cls == "Dict" and value in domains):
+        return False
+    ks = [("key", sp), ("key", value)] if cls == "Dict" else [POS]
+    if value is None or keyed or own_order:
+        ks = ks[:1]
+        if sp not in domains:
+            return False
+    if drop_kw:
+        def strip(n):
+            return ("call", n[1], n[2], ()) if isinstance(n, tuple) and n and n[0] == "call" and isinstance(n[1], tuple) and n[1][0] == "attr" and n[1][2] == method else n
+        elt = ("tuple", tuple(strip(e) for e in elt[1])) if isinstance(elt, tuple) and elt and elt[0] == "tuple" else strip(elt)
+    for K in ks:
+        comp_space = ("sub", sp, K)
+        if attr:
+            want = ("attr", comp_space, method)
+        else:
+            want = ("call", ("attr", comp_space, method), (("sub", value, K),) if value is not None else (), kw(K) if kw else ())
+        if keyed and cls == "Dict":
+            want = ("tuple", (K, want))
+        if elt == want:
+            return True
+    return False
 
 
 def keyless(n):
@@ -308,6 +360,23 @@ def check_samples(s):
             ok = ok and len(samp) == 1 and dict((a, v) for a, v in samp[0][3] if a).get("key") == ("bound", c[4], nb)
         s.ob("C14.6", f"{cls}.sample", ok, "each component is sampled with its own split of the key, zipped in component order", s.loc(cls, "sample"), key="container-sample",
              detail=show(p.ret, maxlen=300), necessary_for="nested samples are members component by component")
+        if len(comps) == 1:
+            s.ob("C14.6", f"{cls}.sample", pairing_ok(cls, comps[0], "sample", None, keyed=True, drop_kw=True),
+                 "the sample stored under a key / at a position is drawn from the component space of that key / position", s.loc(cls, "sample"), key="sample-pairing",
+                 detail=pairing_show(cls, comps[0]), necessary_for="nested samples are members component by component")
+            outer = p.ret
+            want_outer = ("global", "collections.OrderedDict") if cls == "Dict" else ("global", "tuple")
+            s.ob("C14.6", f"{cls}.sample", isinstance(outer, tuple) and outer[0] == "call" and outer[1] == want_outer and outer[2] == (comps[0],),
+                 f"the sample is a{'n OrderedDict' if cls == 'Dict' else ' tuple'} of the component samples (the type contains() accepts)", s.loc(cls, "sample"), key="sample-container-type",
+                 detail=show(outer, maxlen=120))
+    for cls in ("Dict", "Tuple"):
+        p = one(s.paths(b, cls, "canonical"), f"{cls}.canonical")
+        comps = [c for c in walk(p.ret) if isinstance(c, tuple) and c and c[0] == "comp"]
+        want_outer = ("global", "collections.OrderedDict") if cls == "Dict" else ("global", "tuple")
+        ok = len(comps) == 1 and isinstance(p.ret, tuple) and p.ret[0] == "call" and p.ret[1] == want_outer and p.ret[2] == (comps[0],) \
+            and pairing_ok(cls, comps[0], "canonical", None, keyed=True)
+        s.ob("C14.7", f"{cls}.canonical", ok, "canonical() is the container of every component's canonical(), each under its own key / position", s.loc(cls, "canonical"),
+             key="container-canonical", detail=pairing_show(cls, comps[0]) if comps else show(p.ret, maxlen=200), necessary_for="canonical() of a nested space is a member")
 
 
 def check_canonical(s):
